@@ -91,7 +91,8 @@ func malformedOp(r *drv.Rng, class string, id uint64, el *drv.U128) (drv.OpSpec,
 	case "bad-label":
 		o.T, o.NHG, o.Key = "mpls", 1, drv.Pick(r, uint64(0), 15, 1048576)
 	case "label-ge-2^32":
-		o.T, o.NHG, o.Key = "mpls", 1, drv.Pick(r, uint64(1<<32+100), 1<<32+16, 1<<63)
+		badListSeq++
+		o.T, o.NHG, o.Key = "mpls", 1, []uint64{1<<32 + 100, 1<<32 + 16, 1 << 63, 5<<32 + 100}[badListSeq%4]
 	case "empty-ni":
 		top()
 		o.NI = 0
@@ -119,7 +120,9 @@ func malformedOp(r *drv.Rng, class string, id uint64, el *drv.U128) (drv.OpSpec,
 	case "delete-bad-prefix":
 		o.Kind, o.T, o.Key = "DELETE", "v4", uint64(11+r.Intn(5))
 	case "delete-bad-label":
-		o.Kind, o.T, o.Key = "DELETE", "mpls", drv.Pick(r, uint64(5), 1048576, 1<<32+100)
+		// every kind of bad label in turn: reserved, too large, and above 2^32 with a low half that is a valid (installed) label
+		badListSeq++
+		o.Kind, o.T, o.Key = "DELETE", "mpls", []uint64{5, 1048576, 1<<32 + 100, 7<<32 + 100, 1<<63 + 100}[badListSeq%5]
 	case "delete-zero-id":
 		o.Kind, o.T, o.Key = "DELETE", "nhg", 0
 	case "delete-zero-index":
